@@ -32,7 +32,13 @@ import (
 	"time"
 )
 
-const VerifDir = "/verif"
+// VerifDir is the root of the verification tree (check.sh exports the directory it lives in).
+var VerifDir = func() string {
+	if d := os.Getenv("VERIF_DIR"); d != "" {
+		return d
+	}
+	return "/verif"
+}()
 
 // Violation is one mismatch between planted and observed events.
 type Violation struct {
